@@ -247,6 +247,13 @@ def handle (E : Env) (line : String) : Env × String :=
       let b := match r with | .borrowed _ => "1" | .owned _ => "0"
       (E, s!"ok {toHex (Hand.poolThreads e)} {b}")
     | _, _, _ => (E, "bad-request pool arguments")
+  | ["pin", dbg, avail, threads] =>
+    match parseHex avail, parseHex threads with
+    | some a, some t =>
+      -- number of worker indices `0..threads` whose `pin_current` panics
+      let n := ((List.range t).filter (fun idx => (Hand.pinCurrent (dbg == "1") a idx true).isNone)).length
+      (E, s!"ok {toHex n}")
+    | _, _ => (E, "bad-request pin arguments")
   | ["abuf", sz, len] =>
     match parseHex sz, parseHex len with
     | some s, some l =>
